@@ -78,6 +78,8 @@ def run(R):
                     R.signal('correspondence', {'def': 'ln_evidence', 'ls': ls, 'N': N, 'implementation': got, 'model': mv})
             except OverflowError:
                 pass
+            except Exception as ex:      # the regenerated definition cannot be evaluated on this input (e.g. log of an underflowed value)
+                R.signal('correspondence', {'def': 'ln_evidence', 'ls': ls, 'N': N, 'implementation': got, 'model': 'raised %r' % ex})
         c = R.rng.uniform(-200, 200)
         out2 = {'g': np.zeros(len(with_inf)), 'd': np.zeros(len(with_inf)), 'ln_pdf': np.matrix([[x + c for x in with_inf]])}
         perm = list(with_inf)
